@@ -27,6 +27,8 @@ def rowop_groups(tier, props=("C13", "C09", "C10", "C11")):
                 nr = 5 if h == "COL_SWAP" else 3
                 d = mat(nr, nc, kind)
                 variants = [("", {})]
+                if tier == "quick" and nc >= 600 and kind != "view1":
+                    continue   # the widest shape only as a window at an odd word offset in the quick tier
                 if h == "COL_SWAP":
                     # row ranges are enumerated (symbolic start/stop rows make every access a symbolic-offset access: > 5 min);
                     # (0,5): unrolled-by-4 body + 1 rest, (1,4): rest only, (0,4): body only, (2,2): empty range
@@ -34,7 +36,10 @@ def rowop_groups(tier, props=("C13", "C09", "C10", "C11")):
                     variants = [(".rows%d-%d" % (a, b), {"ROW_LO": a, "ROW_HI": b}) for a, b in rr]
                     nw = (nc + 63) // 64
                     if nw >= 3:   # wide rows: additionally enumerate the word class of the two columns
-                        wp = [(0, nw - 1), (nw - 1, nw - 1), (nw - 2, 0)] if tier == "quick" else [(a, b) for a in range(nw) for b in range(nw)]
+                        wp = [(0, nw - 1), (nw - 1, nw - 1), (nw - 2, 0)]
+                        if tier != "quick":   # all word pairs up to 4 words, otherwise corners, diagonal and neighbours
+                            wp = [(a, b) for a in range(nw) for b in range(nw)] if nw <= 4 else sorted(set(
+                                [(0, 0), (0, 1), (1, 0), (0, nw - 1), (nw - 1, 0), (nw - 1, nw - 1), (nw - 2, nw - 1), (nw - 1, nw - 2), (nw // 2, nw // 2), (nw // 2, 0), (1, nw - 2), (nw // 2, nw - 1)]))
                         variants = [(vn + ".w%d-%d" % (aw, bw), dict(vd, AW=aw, BW=bw)) for vn, vd in variants[:(1 if tier == "quick" else None)] for aw, bw in wp]
                 for vn, vd in variants:
                     dd = dict(d)
@@ -57,7 +62,7 @@ def combine_groups(tier, props=("C13", "C09", "C11", "C12"), config="host", widt
             for kind, bkind in (("owned", "owned"), ("view1", "view0"), ("view0", "view1")) if not q else (("owned", "view1"), ("view1", "owned")):
                 sbs = [0] + ([1] if w >= 3 else [])
                 for sb in sbs:
-                    for alias in ([0, 1] if (mode == "COMBINE" and (nc < 600 or not q)) else [0]):
+                    for alias in ([0, 1] if (mode == "COMBINE" and (nc < 400 or not q)) else [0]):
                         d = mat(2, nc, kind)
                         b = mat(2, nc, bkind, "B_")
                         b.pop("B_NR"), b.pop("B_NC")
